@@ -121,7 +121,7 @@ func (s *Session) prog(mod string) (*Prog, error) {
 	// contract files missing from the repository: use the mirror
 	mirror := filepath.Join(verifRoot(), "contracts", mod)
 	filepath.Walk(mirror, func(path string, info os.FileInfo, err error) error {
-		if err != nil || info.IsDir() || info.Name() != "contracts_verif.go" {
+		if err != nil || info.IsDir() || !isContractFile(info.Name()) {
 			return nil
 		}
 		rel, _ := filepath.Rel(mirror, path)
